@@ -3,6 +3,8 @@
 
 #include "awkward/forth/ForthMachine.h"
 
+#include <sys/mman.h>
+
 namespace ak = awkward;
 
 namespace {
@@ -161,22 +163,41 @@ extern "C" {
     // always gets the same view)
     long mix = n * 7 + (long)std::strlen(name) + (n > 0 ? ((const uint8_t*)bytes)[0] : 0);
     long off = (mix % 3 == 0) ? 1 + (mix % 12) : 0;
-    std::shared_ptr<uint8_t> buf(new uint8_t[(size_t)(off + n)], std::default_delete<uint8_t[]>());
+    // an input that the machine does not declare as "must be writable" is handed over in read-only memory (what the
+    // Python layer does with a read-only NumPy array or a bytes object: obj.request(input_must_be_writable(name)))
+    bool writable = true;
+    try {
+      writable = (fm->width == 32 ? fm->m32->input_must_be_writable(name) : fm->m64->input_must_be_writable(name));
+    }
+    catch (std::exception&) { }
+    std::shared_ptr<uint8_t> buf;
+    if (!writable  &&  off + n > 0) {
+      size_t bytes_mapped = (((size_t)(off + n) + 4095) / 4096) * 4096;
+      void* m = mmap(nullptr, bytes_mapped, PROT_READ | PROT_WRITE, MAP_PRIVATE | MAP_ANONYMOUS, -1, 0);
+      if (m == MAP_FAILED) throw std::runtime_error("mmap failed");
+      buf = std::shared_ptr<uint8_t>((uint8_t*)m, [bytes_mapped](uint8_t* p) { munmap(p, bytes_mapped); });
+    }
+    else {
+      buf = std::shared_ptr<uint8_t>(new uint8_t[(size_t)(off + n)], std::default_delete<uint8_t[]>());
+    }
     for (long i = 0;  i < off;  i++) buf.get()[i] = (uint8_t)(0xE0 + i);
     if (n > 0) std::memcpy(buf.get() + off, bytes, (size_t)n);
+    if (!writable  &&  off + n > 0) {
+      mprotect(buf.get(), (((size_t)(off + n) + 4095) / 4096) * 4096, PROT_READ);
+    }
     std::vector<uint8_t> copy(buf.get(), buf.get() + off + n);
     for (size_t i = 0;  i < fm->inputs.size();  i++) {
       if (fm->inputs[i].first == name) {
         fm->inputs[i].second = std::make_pair(buf, n);
         fm->pristine[i] = copy;
         fm->offsets[i] = off;
-        return 1;
+        return (!writable  &&  off + n > 0) ? 2 : 1;
       }
     }
     fm->inputs.push_back(std::make_pair(std::string(name), std::make_pair(buf, n)));
     fm->pristine.push_back(copy);
     fm->offsets.push_back(off);
-    return 1;
+    return (!writable  &&  off + n > 0) ? 2 : 1;      // 2: the bytes lie in read-only pages
     AWS_CATCH(0)
   }
 
